@@ -143,7 +143,9 @@ func runC03(r *Run, rng *rand.Rand, thorough bool) {
 				r.Traces++
 				r.Dist["eddsa-keygen/"+st.Name]++
 				if err != nil {
-					r.Assert(false, "eddsa-keygen/completes/"+st.Name, "keygen-completes", func() string { return fmt.Sprintf("n=%d t=%d pat=%d %v panics=%v", n, t, pat, err, ks != nil && len(ks.net.Panics) > 0) })
+					r.Assert(false, "eddsa-keygen/completes/"+st.Name, "keygen-completes", func() string {
+						return fmt.Sprintf("n=%d t=%d pat=%d %v panics=%v", n, t, pat, err, ks != nil && len(ks.net.Panics) > 0)
+					})
 					continue
 				}
 				r.Distinct++
